@@ -53,10 +53,21 @@ def main():
             rc, out = sh("cargo test --offline 2>&1 | grep -E 'test result|FAILED|panicked' | head -20", cwd=wt, env=env)
             res["existing_tests"] = out.strip().split("\n")[:6]
             print("existing tests:", out.strip()[:300])
-            demo_cmd = os.path.join(d, "demo_cmd.txt")
-            if os.path.exists(demo_cmd) and os.path.exists(os.path.join(d, "demo.rs")):
-                txt = open(demo_cmd).read()
-                res["demo_cmd_txt"] = txt
+            if os.path.exists(os.path.join(d, "demo.rs")):
+                # convention: the demonstration is an integration test file using the public API only
+                tname = "seed_demo_%s" % name.lower()
+                os.makedirs(os.path.join(wt, "tests"), exist_ok=True)
+                shutil.copy(os.path.join(d, "demo.rs"), os.path.join(wt, "tests", tname + ".rs"))
+                rc1, out1 = sh("cargo test --offline --test %s 2>&1 | tail -15" % tname, cwd=wt, env=env)
+                fails_with = "test result: FAILED" in out1 or "panicked" in out1
+                sh("git apply -R %s" % os.path.join(d, "patch.diff"), cwd=wt)
+                rc2, out2 = sh("cargo test --offline --test %s 2>&1 | tail -8" % tname, cwd=wt, env=env)
+                passes_without = "test result: ok" in out2 and "FAILED" not in out2
+                sh("git apply %s" % os.path.join(d, "patch.diff"), cwd=wt)
+                os.remove(os.path.join(wt, "tests", tname + ".rs"))
+                res["demo"] = {"fails_with_change": fails_with, "passes_without_change": passes_without,
+                               "with_tail": out1[-600:], "without_tail": out2[-300:]}
+                print("demo: fails_with_change=%s passes_without_change=%s" % (fails_with, passes_without))
         for pid in props:
             t0 = time.time()
             env2 = dict(os.environ, VERIF_REPO=wt)
